@@ -297,3 +297,51 @@ func vfN2HAccept(post bool, status string) bool {
 	}
 	return code == 200
 }
+
+// TestVerifN2HGiveUp: the tool as shipped = handler + go-nsq Consumer with the configuration main() builds
+// (nsq.NewConfig(): max_attempts 5). A source stub delivers one message with a given attempts count while the
+// destination answers 500: the property wants Requeue; what does the tool answer?
+func TestVerifN2HGiveUp(t *testing.T) {
+	stub := &vfN2HStub{script: map[int]string{0: "500"}, release: make(chan struct{})}
+	srv := httptest.NewServer(stub)
+	defer srv.Close()
+	httpclient = &http.Client{Timeout: 2 * time.Second}
+	*sample = 1.0
+	for _, attempts := range []uint16{1, 5, 6, 9} {
+		src := vfNewStubNsqd()
+		cfg := nsq.NewConfig() // as in main()
+		cfg.MaxInFlight = *maxInFlight
+		consumer, err := nsq.NewConsumer("t", "nsq_to_http", cfg)
+		if err != nil {
+			t.Fatal(err)
+		}
+		consumer.SetLoggerLevel(nsq.LogLevelMax)
+		addr := srv.URL + "/a0"
+		ph := &PublishHandler{Publisher: &PostPublisher{}, addresses: []string{addr}, mode: ModeRoundRobin,
+			hostPool: hostpool.New([]string{addr}), perAddressStatus: map[string]*timer_metrics.TimerMetrics{addr: timer_metrics.NewTimerMetrics(0, "")},
+			timermetrics: timer_metrics.NewTimerMetrics(0, "")}
+		consumer.AddConcurrentHandlers(ph, 1)
+		if err := consumer.ConnectToNSQD(src.addr); err != nil {
+			t.Fatal(err)
+		}
+		for i := 0; i < 500 && !src.Subscribed(); i++ {
+			time.Sleep(2 * time.Millisecond)
+		}
+		stub.mu.Lock()
+		stub.seen = nil
+		stub.mu.Unlock()
+		src.Deliver("0123456789abcdef", attempts, []byte("payload"))
+		resp := "none"
+		select {
+		case resp = <-src.Resp:
+		case <-time.After(10 * time.Second):
+		}
+		stub.mu.Lock()
+		nreq := len(stub.seen)
+		stub.mu.Unlock()
+		fmt.Printf("GIVEUP tool=nsq_to_http max_attempts=%d attempts=%d destination=500 requests=%d response=%s\n",
+			cfg.MaxAttempts, attempts, nreq, strings.Fields(resp)[0])
+		consumer.Stop()
+		src.Down()
+	}
+}
